@@ -143,8 +143,8 @@ def run(ctx):
                     le = 'from_le' in o.flags and 'from_be' not in o.flags
             for kind in variants:
                 cls = {de_class(kind, t[0], le) for t in toks} - {None}
-                if kind == 'Duration' and name != 'deserialize_ignored_any':
-                    pass
+                if kind in ('Decimal', 'BigDecimal') and name == 'deserialize_ignored_any':
+                    continue      # ignored decimals are taken as raw bytes (judged by C03 / C12), nothing is decoded
                 de_shapes[kind] |= cls
                 if kind == 'Null' and any(t[0][0] == 'VISIT' and t[0][1] in ('unit', 'none') for t in toks) and not cls:
                     de_shapes['Null'].add('NONE')
